@@ -198,9 +198,11 @@ pub fn history(cfg: &Cfg, rep: &mut Report, h: u64, steps: usize, mode: Mode, of
             }
         };
         let (a_tot, s_tot) = (pre.assets[vi], pre.supply);
-        let x = rng.idx(nu);
-        let y = if rng.chance(1, 3) { x } else { rng.idx(nu) };
-        let z = if rng.chance(1, 2) { x } else { rng.idx(nu) };
+        // the receiver is the vault itself once in twenty operations
+        let x = if step > nu + 2 && rng.chance(1, 20) { vi } else { rng.idx(nu) };
+        // payer and operator are always users: only mocked authorization could make the vault sign
+        let y = if rng.chance(1, 3) && x != vi { x } else { rng.idx(nu) };
+        let z = if rng.chance(1, 2) && x != vi { x } else { rng.idx(nu) };
         let amt = |rng: &mut Rng, around: &[i128]| -> i128 {
             let mut c: Vec<i128> = vec![0, 1, 2, 3, 7, 10, 999, 1000, 1001, 1_000_000_007, -1];
             for a in around {
